@@ -509,6 +509,59 @@ def fam_struct(thorough):
         tags=("struct", "linear"))
 
 
+STRUCT2_HDR = STRUCT_HDR + '''@guppy.struct
+class O:
+    inner: S
+    k: int
+
+@guppy
+def eat_o(o: O @owned) -> None:
+    discard(o.inner.q)
+
+@guppy
+def eat_s(s: S @owned) -> None:
+    discard(s.q)
+
+@guppy
+def touch_o(o: O) -> None:
+    h(o.inner.q)
+
+'''
+
+
+def fam_struct2(thorough):
+    """struct nested two levels deep with a qubit leaf: whole / mid-level / leaf moves and
+    leaf / mid-level reassignments in every order (H = the qubit leaf is moved out)."""
+    atoms = [
+        A("eat_o(o)", {"o": "L"}, {"o": "H"}, tag="whole-move"),
+        A("eat_s(o.inner)", {"o": "L"}, {"o": "H"}, tag="mid-move"),
+        A("discard(o.inner.q)", {"o": "L"}, {"o": "H"}, tag="leaf-move"),
+        A("o.inner.q = qubit()", {"o": "H"}, {"o": "L"}, tag="deep-field-assign"),
+        A("o.inner = S(x, qubit())", {"o": "H", "x": "L"}, {"o": "L"}, tag="mid-field-assign"),
+        A("h(o.inner.q)", {"o": "L"}, tag="field-borrow"),
+        A("touch_o(o)", {"o": "L"}, tag="whole-borrow"),
+        A("x = o.inner.n + o.k", {"o": "LH"}, {"x": "L"}, tag="field-read"),
+        A("return o", {"o": "L"}, {"o": "D"}, kind="return"),
+        A("break", kind="break"),
+    ]
+    if thorough:
+        atoms += [A("continue", kind="continue"),
+                  A("o = O(S(x, qubit()), x)", {"o": "H", "x": "L"}, {"o": "L"}, tag="struct-new")]
+
+    def ep(env):
+        out = []
+        if env["o"] == "H":
+            out.append("o.inner.q = qubit()")
+        elif env["o"] == "D":
+            out.append("o = O(S(0, qubit()), 1)")
+        return out + ["return o"]
+    return Family(
+        "struct2", "@guppy\ndef main(a: bool, b: bool, o: O @owned, x: int) -> O:",
+        [Var("a", "bool", "L"), Var("b", "bool", "L"), Var("o", "O", "L"), Var("x", "int", "L"), Var("i", "int")],
+        atoms, ep, header=STRUCT2_HDR, compounds=("if", "ifelse", "while"),
+        n_max=4 if thorough else 3, depth_max=2, tags=("struct", "linear", "nested-struct"))
+
+
 def fam_structb(thorough):
     atoms = [
         A("h(s.q)", {"s": "L"}, tag="field-borrow"),
@@ -685,6 +738,11 @@ def fam_gen(thorough):
         A("q = pick(a, q, 1)", {"q": "L"}, tag="partial-mono"),
         A("x = pick(b, x, 2)", {"x": "L"}, tag="partial-mono"),
         A("return q", {"q": "L"}, {"q": "D"}, kind="return"),
+        A("u = ident(None)", None, None, tag="inst-none"),
+        A("tt = ident((x, 2))", {"x": "L"}, None, tag="inst-tuple"),
+        A("e = ident(())", None, None, tag="inst-unit-tuple"),
+        A("u = pick(a, None, 1)", None, None, tag="inst-none"),
+        A("fb = ident(a)", None, None, tag="inst-bool"),
     ]
     if thorough:
         atoms += [A("w = ident(1.5)", None, {"w": "L"}, tag="inst-float"),
@@ -1216,7 +1274,7 @@ def fam_entries(thorough):
 def families(thorough: bool):
     return [
         fam_cf(thorough), fam_lin(thorough), fam_linb(thorough), fam_mix(thorough),
-        fam_struct(thorough), fam_structb(thorough),
+        fam_struct(thorough), fam_structb(thorough), fam_struct2(thorough),
         fam_arr(thorough), fam_arrr(thorough), fam_arrq(thorough), fam_arrs(thorough),
         fam_gen(thorough),
         fam_polyl(thorough, "poly"), fam_polyl(thorough, "inst"), fam_polyl(thorough, "part"),
